@@ -564,6 +564,7 @@ fn fp_len_quick(idx: u64, r: &mut Rng) -> u16 {
 }
 
 pub fn run(cfg: &Cfg) -> Report {
+    crate::tls::prewarm(false);
     let seed = cfg.seed;
     let quick = cfg.quick();
     let mut total = Report::new();
